@@ -495,6 +495,17 @@ def run(run):
     attrsign(run, fx)
     setglyphfx(run, fx)
     freshmark(run, fx)
+    inst_ = 'accumulate_rules gives the precedence-sorted union (interpreted)'
+    ar_ = fx.one('graphite2::FiniteStateMachine::Rules::accumulate_rules')
+    try:
+        from . import ordint as O_
+        cases_, bad_ = merge_exec(run, fx, getattr(run, 'tier', 'quick') != 'quick')
+        if bad_:
+            run.violated('PRECEDENCE', inst_, ar_.where(), bad_)
+        else:
+            run.held('PRECEDENCE', inst_, ar_.where(), '%d abstract executions' % cases_)
+    except (AnalysisBroken, O_.AnalysisBroken) as ex:
+        run.broken('PRECEDENCE', inst_, str(ex), ar_.where())
     firstpassing(run, fx)
     pureconstraint(run, vm)
     passorder(run, fx)
@@ -649,3 +660,56 @@ def setglyphfx(run, fx):
                          'with the %s of the glyph it showed before' % (path, F, F[2:]))
         else:
             run.held('PRECEDENCE', inst, fn.where(), 'stored in blocks %s, which cut every entry-exit path' % sorted(blocks))
+
+
+def merge_exec(run, fx, full=False):
+    """PRECEDENCE by bounded execution (rules/ordint.py): FiniteStateMachine::Rules::accumulate_rules (with RuleEntry::operator<,
+    begin / end / State::empty inlined from their own CFGs) merges the sorted rule list of a state into the sorted result set.  It is
+    interpreted for every sort-key assignment of 4 rules x every precedence-sorted result set x every non-empty precedence-sorted state
+    list x both halves of the double buffer: the new result set is the precedence-sorted union without duplicates, it lies in the other
+    half, and nothing outside the buffer is touched."""
+    import itertools
+    from . import ordint as O
+    fn = fx.one('graphite2::FiniteStateMachine::Rules::accumulate_rules')
+    PR, PE, PS, PU = 'graphite2::FiniteStateMachine::Rules::', 'graphite2::RuleEntry::', 'graphite2::State::', 'graphite2::Rule::'
+    maxr = None
+    for e_ in fx.raw['enums'].values():
+        for c_ in e_.get('consts', []):
+            if c_.get('q', '').endswith('FiniteStateMachine::MAX_RULES'):
+                maxr = c_.get('v')
+    if not maxr:
+        raise AnalysisBroken('FiniteStateMachine::MAX_RULES not found')
+    cases = 0
+    for sorts in (itertools.product((1, 2), repeat=4) if full else [(1, 1, 1, 1), (1, 2, 1, 2), (2, 1, 2, 1), (1, 1, 2, 2), (2, 2, 1, 1), (1, 2, 2, 1)]):
+        rules = O.Vec([O.Rec({PU + 'sort': sorts[k], '#': k}) for k in range(4)])
+        order = sorted(range(4), key=lambda k: (-sorts[k], k))           # precedence: longer sort key first, then earlier rule
+        for lmask in range(16):
+            L = [k for k in order if lmask >> k & 1]
+            for rmask in range(1, 16):
+                R = [k for k in order if rmask >> k & 1]
+                for half in (0, 1):
+                    buf = O.Vec([O.Rec({PE + 'rule': O.Ptr(None)}) for _ in range(2 * maxr)])
+                    for j, k in enumerate(L):
+                        buf.items[half * maxr + j] = O.Rec({PE + 'rule': O.It(rules, k)})
+                    rs = O.Rec({PR + 'm_rules': O.It(buf, 0), PR + 'm_begin': O.It(buf, half * maxr), PR + 'm_end': O.It(buf, half * maxr + len(L))})
+                    sv = O.Vec([O.Rec({PE + 'rule': O.It(rules, k)}) for k in R])
+                    st = O.Rec({PS + 'rules': O.It(sv, 0), PS + 'rules_end': O.It(sv, len(R))})
+                    it = O.Interp(fx)
+                    it.MAX_STEPS = 4000
+                    cases += 1
+                    desc = 'sort keys %s, result set %s, state list %s, buffer half %d' % (list(sorts), L, R, half)
+                    try:
+                        it.call(fn, rs, [st])
+                    except O.Violation as v:
+                        return cases, '%s: %s (%s)' % (desc, v.what, v.loc)
+                    b, e = rs[PR + 'm_begin'], rs[PR + 'm_end']
+                    if not (isinstance(b, O.It) and isinstance(e, O.It) and b.vec is buf and e.vec is buf and b.idx == (1 - half) * maxr and b.idx <= e.idx <= b.idx + maxr):
+                        return cases, '%s: the new result set is not in the other half of the buffer' % desc
+                    got = []
+                    for x in buf.items[b.idx:e.idx]:
+                        r_ = x.get(PE + 'rule')
+                        got.append(r_.idx if isinstance(r_, O.It) else None)
+                    want = [k for k in order if (lmask | rmask) >> k & 1]
+                    if got != want:
+                        return cases, '%s: the merged candidate list is %s, the precedence-sorted union is %s (findNDoRule applies the first candidate that passes: a rule out of place or listed twice changes which rule fires)' % (desc, got, want)
+    return cases, None
